@@ -322,6 +322,10 @@ func setJudge(s kstate, p part, kv kvReq, status string, sm *swampModel, loose b
 		var want []string
 		rel := "same-value"
 		switch {
+		case !changed && s.R.Val.K != nv.K:
+			// void over an empty uint32 set or the reverse: nothing visible changes, whether that
+			// counts as an update is not documented
+			want = []string{"UPDATED", "NOTHING_CHANGED"}
 		case changed || metaDiffers:
 			want = []string{"UPDATED"}
 			rel = "changed"
@@ -509,7 +513,7 @@ func (m *model) applyGet(o *op, ob *obs) *viol {
 		if v != nil {
 			return v
 		}
-		for _, k := range p.Keys {
+		for _, k := range uniq(append([]string{}, p.Keys...)) {
 			if v := m.readKey("Get", sm, k, found[k], false); v != nil {
 				return v
 			}
@@ -593,7 +597,7 @@ func (m *model) applyGetByKeys(o *op, ob *obs) *viol {
 	if v != nil {
 		return v
 	}
-	for _, k := range eligible {
+	for _, k := range uniq(append([]string{}, eligible...)) {
 		if v := m.readKey("GetByKeys", sm, k, found[k], o.KeysOnly); v != nil {
 			return v
 		}
@@ -627,21 +631,41 @@ func (m *model) applyDelete(o *op, ob *obs) *viol {
 			}
 			return &viol{"Delete:errcode:" + ds.ErrCode, fmt.Sprintf("unexpected ErrorCode: %s", ob)}
 		}
-		byKey := map[string]string{}
-		for _, st := range ds.Statuses {
-			byKey[st.Key] = st.Status
+		mult := map[string]int{}
+		for _, k := range p.Keys {
+			mult[k]++
 		}
-		if len(byKey) != len(p.Keys) || len(ds.Statuses) != len(p.Keys) {
-			return &viol{"Delete:response:status-count", fmt.Sprintf("%d statuses for %d keys: %s", len(ds.Statuses), len(p.Keys), ob)}
+		byKey := map[string][]string{}
+		for _, st := range ds.Statuses {
+			byKey[st.Key] = append(byKey[st.Key], st.Status)
+		}
+		for k, sts := range byKey {
+			if mult[k] == 0 || len(sts) > mult[k] {
+				return &viol{"Delete:response:status-count", fmt.Sprintf("%d statuses for key %s requested %d times: %s", len(sts), k, mult[k], ob)}
+			}
 		}
 		removed := false
-		for _, k := range p.Keys {
-			st, ok := byKey[k]
+		for _, k := range uniq(append([]string{}, p.Keys...)) {
+			sts, ok := byKey[k]
 			if !ok {
 				return &viol{"Delete:response:key-missing", fmt.Sprintf("no status for key %s: %s", k, ob)}
 			}
+			// a key named several times: one DELETED at most can be true; the rest is not documented
+			nDel := 0
+			for _, x := range sts {
+				if x == "DELETED" {
+					nDel++
+				}
+			}
+			st := sts[0]
+			if nDel > 0 {
+				st = "DELETED"
+			}
 			km := sm.keys[k]
 			prev := km.label()
+			if nDel > 1 {
+				return &viol{"Delete:status:deleted-twice" + provSuffix(km), fmt.Sprintf("key %s/%s reported DELETED %d times in one request: %s", sm.cfg.Name, k, nDel, ob)}
+			}
 			if st == "DELETED" {
 				removed = true
 			}
@@ -697,7 +721,7 @@ func (m *model) applyShift(o *op, ob *obs) *viol {
 		return v
 	}
 	removed := false
-	for _, k := range o.Keys {
+	for _, k := range uniq(append([]string{}, o.Keys...)) {
 		km := sm.keys[k]
 		prev := km.label()
 		wasWild := km.wild
@@ -883,10 +907,11 @@ func (m *model) applyAreKeysExist(o *op, ob *obs) *viol {
 		return &viol{"AreKeysExist:nil-response:" + m.situation(o), "AreKeysExist returned no response and no error"}
 	}
 	// "All requested keys appear in the response — unlike GetByKeys, missing keys are NOT omitted."
-	if len(ob.Map) != len(o.Keys) {
-		return &viol{"AreKeysExist:response:key-count", fmt.Sprintf("%d results for %d keys: %s", len(ob.Map), len(o.Keys), ob)}
+	distinct := uniq(append([]string{}, o.Keys...))
+	if len(ob.Map) != len(distinct) {
+		return &viol{"AreKeysExist:response:key-count", fmt.Sprintf("%d results for %d distinct keys: %s", len(ob.Map), len(distinct), ob)}
 	}
-	for _, k := range o.Keys {
+	for _, k := range distinct {
 		got, ok := ob.Map[k]
 		if !ok {
 			return &viol{"AreKeysExist:response:key-missing", fmt.Sprintf("no result for key %s: %s", k, ob)}
